@@ -1,9 +1,5 @@
 #!/usr/bin/env python3
-"""
-import os as _os, sys as _sys
-if not _os.environ.get("VERIF_BUILD_DIR") and "--real-repo" not in _sys.argv:
-    _sys.exit("refusing to patch /repo itself: run inside the private mount namespace (VERIF_BUILD_DIR set, see tools/nsrun.sh / DESIGN §12) or pass --real-repo")
-seedcheck.py <PROP> <N> [--checks C01,C02,...]
+"""seedcheck.py <PROP> <N> [--checks C01,C02,...]
 
 Validate a seeded change produced by a sub-agent in /tmp/seedwt/<PROP>/seed/<N>/ and run the
 checks against it:
@@ -12,6 +8,10 @@ checks against it:
   2. apply the patch to /repo, run the checks (all by default), undo;
   3. store patch, demo and meta.json under /verif/seeded/<PROP>-<N>/.
 """
+import os as _os, sys as _sys
+if not _os.environ.get("VERIF_BUILD_DIR") and "--real-repo" not in _sys.argv:
+    _sys.exit("refusing to patch /repo itself: run inside the private mount namespace (VERIF_BUILD_DIR set, see tools/nsrun.sh / DESIGN §12) or pass --real-repo")
+
 import concurrent.futures as cf
 import json
 import os
